@@ -233,6 +233,9 @@ def _main(prop_id, tier, seed, jobs, replay, scratch, t0):
             m["inconclusive"].append(
                 "non-interference self-check failed: evaluate() battery differs with "
                 "monitors on/off (%r vs %r)" % (ni[0], ni[1]))
+        elif ni[0].get("fidelity_problems"):
+            m["inconclusive"].append("non-interference self-check: %s"
+                                     % ni[0]["fidelity_problems"])
 
     if hasattr(prop, "finalize") and replay is None:
         prop.finalize(m, tier)
